@@ -412,6 +412,7 @@ func runClientLib(w *World) {
 				delete(waiting, e.g)
 				w.probe("acquire_failures")
 			case "acq":
+				own, ownWaited := waiting[e.g]
 				delete(waiting, e.g)
 				w.probe("acquires")
 				if body.Primitive == "rwlock" {
@@ -432,7 +433,11 @@ func runClientLib(w *World) {
 						w.probe("concurrent_holders")
 					}
 				}
-				if body.Primitive == "prioritylock" && lastRel.ev != 0 {
+				// the hand-over rule is about requests that were queued when the hold ended: a request
+				// that reaches the server while the key is free (between the unlock and the wake-up of
+				// the queue) is an ordinary lock on a free key and is granted at once, so the acquirer
+				// itself must have been waiting well before the release, like the one it overtook
+				if body.Primitive == "prioritylock" && lastRel.ev != 0 && ownWaited && lastRel.at.Sub(own.at) > 100*time.Millisecond {
 					for og, oi := range waiting {
 						// higher priority = larger number? the server serves the larger Rcount first
 						if oi.prio > e.prio && lastRel.at.Sub(oi.at) > 100*time.Millisecond && waiting[og].ev < lastRel.ev {
